@@ -92,6 +92,12 @@ func (p *Parser) Parse(source string) (Node, error) {
 	// tokenizer goes back to its pool only after the last token has been read (another
 	// goroutine may pick it up at once), and the buffer is not pooled a second time.
 	nodes, err := p.parseOuterTemplate()
+	if err == nil && p.tokenIndex < len(p.tokens) && p.tokens[p.tokenIndex].Type != TOKEN_EOF {
+		// parseOuterTemplate hands a closing tag (endif, else, endblock ...) back to the parser
+		// of the tag that opened it; at the top level nothing did, and what follows the tag
+		// would be dropped without a word
+		err = fmt.Errorf("unexpected closing tag at line %d", p.tokens[p.tokenIndex].Line)
+	}
 	p.tokens = nil
 	ReleaseTokenizer(tokenizer)
 	if err != nil {
